@@ -1,1 +1,14 @@
 import RaftLogModel.Props.C05
+open RaftLog
+#print axioms c05_open_no_panic_partial
+#print axioms c05_open_no_panic_partial'
+#print axioms c05_fsSmall_of_all
+#print axioms c05_reuse_has_last
+#print axioms c05_open_panics_on_max_index
+#print axioms c05_headless_newest_is_recreated
+#print axioms c05_headless_only_file
+#print axioms openLoop_no_panic
+#print axioms openStore_no_panic
+#print axioms replay_small
+#print axioms openStore_fresh
+#print axioms Loads.openLoop_append
